@@ -6,14 +6,19 @@ use crate::json::J;
 use crate::lexicon::Lexicon;
 
 pub mod c01;
+pub mod c02;
 pub mod c04;
 pub mod c05;
 pub mod c06;
 pub mod c07;
 pub mod c08;
 pub mod c09;
+pub mod c10;
+pub mod c11;
 pub mod c15;
 pub mod c16;
+pub mod c17;
+pub mod c18;
 
 pub struct LangSet {
     pub apis: Vec<Box<dyn Api>>,
@@ -49,6 +54,11 @@ pub fn run(ctx: &Ctx) -> Outcome {
         "C09" => c09::run(ctx),
         "C15" => c15::run(ctx),
         "C16" => c16::run(ctx),
+        "C02" => c02::run(ctx),
+        "C10" => c10::run(ctx),
+        "C11" => c11::run(ctx),
+        "C17" => c17::run(ctx),
+        "C18" => c18::run(ctx),
         other => {
             println!("ERROR unknown or unbuilt property {}", other);
             Outcome { exit_code: 2 }
@@ -68,6 +78,11 @@ pub fn replay(ctx: &Ctx, case: &J) -> Vec<String> {
         "C09" => c09::replay(case),
         "C15" => c15::replay(case),
         "C16" => c16::replay(case),
+        "C02" => c02::replay(case),
+        "C10" => c10::replay(case),
+        "C11" => c11::replay(case),
+        "C17" => c17::replay(case),
+        "C18" => c18::replay(case),
         other => vec![format!("replay not available for {}", other)],
     }
 }
@@ -150,3 +165,48 @@ pub fn pick_fillers<'a>(rng: &mut crate::rng::Rng, lex: &'a Lexicon) -> [&'a str
     let f = &lex.fillers;
     [rng.pick(f).as_str(), rng.pick(f).as_str(), rng.pick(f).as_str(), rng.pick(f).as_str()]
 }
+
+// ---------------------------------------------------------------------------------------------
+// shared: the harness' own splice (copy tokens, replace each reported span by its text)
+// ---------------------------------------------------------------------------------------------
+
+pub fn splice(toks: &[api::PTok], occs: &[api::Occ]) -> Result<String, String> {
+    let mut out = String::new();
+    let mut i = 0usize;
+    for o in occs {
+        if o.start < i || o.end > toks.len() || o.start >= o.end {
+            return Err(format!("span {}..{} cannot be spliced into {} tokens at position {}", o.start, o.end, toks.len(), i));
+        }
+        for t in &toks[i..o.start] {
+            out.push_str(&t.text);
+        }
+        out.push_str(&o.text);
+        i = o.end;
+    }
+    for t in &toks[i..] {
+        out.push_str(&t.text);
+    }
+    Ok(out)
+}
+
+/// pick a text for the text-level monitors: hostile text, annotator-state text or a linking sentence
+pub fn workload_text(rng: &mut crate::rng::Rng, lex: &Lexicon, max_words: usize) -> String {
+    match rng.below(10) {
+        0..=4 => crate::gen::hostile_text(rng, lex, max_words),
+        5 | 6 => crate::gen::linking_sentence(rng, lex, max_words),
+        7 => {
+            let n = 1 + rng.usize(max_words);
+            crate::gen::noise_text(&crate::gen::noise_stream(rng, lex, n))
+        }
+        _ => match lex.code {
+            "fr" => crate::gen::annot_fr(rng, lex),
+            "en" => {
+                let u = rng.chance(1, 2);
+                crate::gen::annot_en(rng, lex, u)
+            }
+            _ => crate::gen::linking_sentence(rng, lex, max_words),
+        },
+    }
+}
+
+pub const TEXT_THRESHOLDS: [f64; 5] = [0.0, 3.0, 10.0, f64::INFINITY, f64::NAN];
